@@ -323,6 +323,15 @@ def directed(seed, tier):
     return out
 
 
+def hb_before_open(seed, tier):
+    """heartbeat interval and offset set by the application before Open(), to the very values Open() sets itself (see p_C13)"""
+    out = []
+    for k, (mode, ndev, src) in enumerate([(1, 1, 22), (2, 2, 0)]):
+        ev = [(0, ['H 60000 10000', 'P'])] + [(t, ['P']) for t in (1, 2, 200, 201, 202, 203, 460, 461)] + [(t, ['P']) for t in range(1000, 13001, 500)]
+        out.append(('hb-before-open#%d' % k, case(cfg(mode, ndev, src, cold=True, hb=True), timeline(ev))))
+    return out
+
+
 def randoms(seed, tier):
     r = random.Random(seed * 104729 + 5)
     n = 14 if tier == 'quick' else 150
